@@ -39,6 +39,9 @@ FAMILIES: Dict[str, Tuple[str, List[str]]] = {
     "ll1d": ("S: A ?0 | ?1 ; A: B C ; B: x B | - ; C: ?2 | -", ["x", "y", "z", "A"]),
     "follow2": ("S: A B ?0 | ?1 B ?2 ; A: ?3 | - ; B: y | -", ["x", "y", "z", "w"]),
     "follow3": ("S: A B C ?0 | w ; A: x | - ; B: ?1 | - ; C: ?2 | -", ["x", "y", "z", "w"]),
+    "rollback2": ("S: A B | C y ?0 | ?1 ; A: x | - ; C: w | - ; B: y ?2", ["x", "y", "z", "w"]),
+    "prefixmid": ("S: x y ?0 | x A ?1 | x y ?2 ; A: y | ?3", ["x", "y", "z", "w"]),
+    "prefixrec": ("S: A ?0 ?1 | A ?2 ?3 ; A: x | -", ["x", "y", "S", "A"]),
     "unreach": ("S: x ?0 ; A: ?1 A | B ; B: ?2 | -", ["x", "y", "A", "B"]),
 }
 
@@ -48,8 +51,8 @@ def n_holes(family: str) -> int:
     return 1 + max(int(tok[1:]) for tok in t.replace(";", " ").replace("|", " ").replace(":", " ").split() if tok.startswith("?"))
 
 
-def instantiate(family: str, holes: List[int], names: Dict[str, str]) -> Dict[str, List[Tuple[str, ...]]]:
-    """-> {non-terminal name: [alternative tuples]} in declaration order"""
+def instantiate(family: str, holes: List[int], names: Dict[str, str], reverse: bool = False) -> Dict[str, List[Tuple[str, ...]]]:
+    """-> {non-terminal name: [alternative tuples]} in declaration order (reverse=True: symbols declared bottom-up)"""
     template, dom = FAMILIES[family]
     g: Dict[str, List[Tuple[str, ...]]] = {}
     for part in template.split(";"):
@@ -70,6 +73,8 @@ def instantiate(family: str, holes: List[int], names: Dict[str, str]) -> Dict[st
                 syms.append(names.get(tok, tok))
             alts.append(tuple(syms))
         g[names.get(head.strip(), head.strip())] = alts
+    if reverse:
+        g = dict(reversed(list(g.items())))
     return g
 
 
